@@ -88,6 +88,17 @@ func TestC12(t *testing.T) {
 	}
 }
 
+// normStateJSON: the state file with its services sorted by name (the order of a snapshot follows map iteration).
+func normStateJSON(b []byte) string {
+	var v []map[string]any
+	if json.Unmarshal(b, &v) != nil {
+		return fmt.Sprintf("UNPARSABLE(%d bytes)", len(b))
+	}
+	sort.Slice(v, func(i, j int) bool { return fmt.Sprint(v[i]["name"]) < fmt.Sprint(v[j]["name"]) })
+	nb, _ := json.Marshal(v)
+	return string(nb)
+}
+
 // configView: the health-independent observable configuration of a proxy (what a restart would
 // serve): list output and routing/behaviour panel, without the state file itself.
 func configView(w *World, p *Proxy, tag string) map[string]string {
@@ -210,6 +221,17 @@ func c12Sim(t *testing.T, run *Run, sc c12Scenario) {
 			if rerr != "" {
 				fail("state-file-unrestorable", "after command %d (%s) the state file cannot be restored: %s", i, c.Kind, rerr)
 				return
+			}
+			if !blocked {
+				// sharper than any behavioural panel: make the proxy write its state again (a command
+				// that fails for an unknown service still saves) - the bytes must say the same
+				w.Cmd("rollout-stop", "no-such-service", func() error { return w.Router.StopRollout("no-such-service") })
+				if again, err2 := os.ReadFile(w.StatePath); err2 == nil {
+					if a, b := normStateJSON(data), normStateJSON(again); a != b {
+						fail("state-file-not-current:snapshot-differs:"+c.Kind, "after command %d (%s %s) returned the state file said %s; written again without any change to the proxy it says %s", i, c.Kind, c.Svc, trunc(a, 300), trunc(b, 300))
+						return
+					}
+				}
 			}
 			if d := DiffObs(post, v); len(d) > 0 && blocked {
 				// the snapshot could not be written: the file is the previous, complete one
